@@ -8,6 +8,7 @@ from .facts import (COUNTMIN, SKETCH_CLASSES, array_alloc, const_int, facts_of, 
 from .flow import NP_DTYPES, Arr, Bytes, Num, Opaque, Tup, c_not, conjuncts, show_cond
 from .lin import Lin, show_lin
 from .model import AnalysisError, Ty, call_name, calls_in, dotted, resolve_temps, self_attr, unparse, walk_no_nested
+from .model import comes_before, is_inside
 from .rules_arith import agg, fact_strs, group_by_node, on_path, src
 
 # ---------------------------------------------------------------------------
@@ -341,7 +342,7 @@ def rule_persist(ctx, classes=SKETCH_CLASSES):
                    "" if okk else "member %r is not written by %s" % (name, save.qualname))
         # copies happen before the archive is closed (inside the with) and the return is of the constructed object
         for a, name, node, obj in li.copies:
-            inside = li.with_node.lineno <= node.lineno <= li.with_node.end_lineno
+            inside = is_inside(load.node, node, li.with_node)
             ctx.ob("persist-table", load, node, "copy of %r inside `with`" % name, "members are read while the archive is open", inside)
         for r in li.returns:
             okk = isinstance(r.value, ast.Name) and r.value.id == li.obj
@@ -561,8 +562,7 @@ def rule_post_load(ctx):
     load = cls.methods.get("load")
     li = parse_loader(F, load)
     regen = [n for n in walk_no_nested(load.node) if isinstance(n, ast.Call) and (dotted(n.func) or "").endswith(".generate_candidate_set")]
-    last_copy = max([c[2].lineno for c in li.copies], default=0)
-    okk = bool(regen) and all(r.lineno > last_copy for r in regen) and (dotted(regen[0].func) or "").split(".")[0] == li.obj
+    okk = bool(regen) and all(comes_before(load.node, c[2], r) for r in regen for c in li.copies) and (dotted(regen[0].func) or "").split(".")[0] == li.obj
     ctx.ob("post-load", load, regen[0] if regen else load.node, "%s.generate_candidate_set()" % (li.obj or "hh"),
            "the candidate cache is rebuilt after the tables are restored", bool(okk),
            "" if okk else "the loaded object keeps an empty candidate set recorded at n_added 0")
@@ -711,8 +711,7 @@ def rule_no_swallow(ctx):
         if f.cls is not None:
             li = parse_loader(F, f)
             if li.with_node is not None:
-                last_read = max([n.lineno for _, n in li.reads], default=0)
-                early = [r for r in li.returns if r.lineno < last_read]
+                early = [r for r in li.returns if any(comes_before(f.node, r, n_) for _, n_ in li.reads)]
                 ctx.ob("no-swallow", f, early[0] if early else f.node, "returns of %s" % f.qualname,
                        "the loader returns only after all members were read", not early)
 
@@ -1457,7 +1456,7 @@ def rule_owner(ctx, classes=SKETCH_CLASSES):
             closes = [n for n in walk_no_nested(arm) if isinstance(n, ast.Call) and isinstance(n.func, ast.Attribute) and n.func.attr == "close"
                       and dotted(n.func.value) == "self." + which]
             dels = [self_attr(t) for n in walk_no_nested(arm) if isinstance(n, ast.Delete) for t in n.targets]
-            del_lines = [n.lineno for n in walk_no_nested(arm) if isinstance(n, ast.Delete)]
+            del_lines = [n for n in walk_no_nested(arm) if isinstance(n, ast.Delete)]
             # `for name in ("a", "b"): delattr(self, name)`  and  `delattr(self, "a")`
             for n in walk_no_nested(arm):
                 if isinstance(n, ast.For) and isinstance(n.iter, (ast.Tuple, ast.List)) and isinstance(n.target, ast.Name) \
@@ -1466,22 +1465,22 @@ def rule_owner(ctx, classes=SKETCH_CLASSES):
                         if dotted(c.func) == "delattr" and len(c.args) == 2 and dotted(c.args[0]) == "self" and isinstance(c.args[1], ast.Name) \
                                 and c.args[1].id == n.target.id:
                             dels.extend(e.value for e in n.iter.elts)
-                            del_lines.append(n.lineno)
+                            del_lines.append(n)
                 elif isinstance(n, ast.Call) and dotted(n.func) == "delattr" and len(n.args) == 2 and dotted(n.args[0]) == "self" \
                         and isinstance(n.args[1], ast.Constant):
                     dels.append(n.args[1].value)
-                    del_lines.append(n.lineno)
+                    del_lines.append(n)
             okk = bool(closes)
             ctx.ob("owner", d, closes[0] if closes else arm, "self.%s.close()" % which, "the mapping is closed", okk)
             if closes:
                 miss = [a for a in shm_attrs if a not in dels]
-                order = all(l < closes[0].lineno for l in del_lines)
+                order = all(comes_before(d.node, l, closes[0]) for l in del_lines)
                 ctx.ob("owner", d, arm, "del %s before self.%s.close()" % (sorted(shm_attrs), which),
                        "every array viewing the block is deleted before close()", not miss and order,
                        "" if not miss and order else "not deleted first: %s" % (miss or "order"))
             unl = [n for n in walk_no_nested(arm) if isinstance(n, ast.Call) and isinstance(n.func, ast.Attribute) and n.func.attr == "unlink"]
             if which == "shm":
-                okk = bool(unl) and bool(closes) and unl[0].lineno > closes[0].lineno
+                okk = bool(unl) and bool(closes) and comes_before(d.node, closes[0], unl[0])
                 ctx.ob("owner", d, unl[0] if unl else arm, "self.shm.unlink()", "the owner removes the segment after closing it", okk,
                        "" if okk else "dropping the owner leaves the segment in the system")
             else:
@@ -1723,7 +1722,7 @@ def rule_attach_table(ctx):
                            and isinstance(a_obj, ast.Subscript) and dotted(a_obj.value) == arr)
                     # the element used is the one created in this iteration: index == loop variable of the enclosing for
                     if okk:
-                        loops = [l for l in walk_no_nested(fn.node) if isinstance(l, ast.For) and l.lineno <= n.lineno <= l.end_lineno]
+                        loops = [l for l in walk_no_nested(fn.node) if isinstance(l, ast.For) and is_inside(fn.node, n, l)]
                         okk = bool(loops) and isinstance(loops[-1].target, ast.Name) and unparse(a_obj.slice) == loops[-1].target.id
                     elif arr is not None and isinstance(a_obj, ast.Name) and isinstance(s_obj, ast.Name) and a_obj.id == s_obj.id:
                         # ... or the object itself: the local that this iteration appended to the role's list
@@ -1741,9 +1740,9 @@ def rule_attach_table(ctx):
                                 sl = v_.slice
                                 last = (isinstance(sl, ast.UnaryOp) and isinstance(sl.op, ast.USub) and isinstance(sl.operand, ast.Constant) and sl.operand.value == 1) \
                                     or (isinstance(sl, ast.Constant) and sl.value == -1)
-                                loops = [l for l in walk_no_nested(fn.node) if isinstance(l, ast.For) and l.lineno <= n.lineno <= l.end_lineno]
+                                loops = [l for l in walk_no_nested(fn.node) if isinstance(l, ast.For) and is_inside(fn.node, n, l)]
                                 byvar = bool(loops) and isinstance(loops[-1].target, ast.Name) and isinstance(sl, ast.Name) and sl.id == loops[-1].target.id
-                                appended_before = any(name == arr and node.lineno <= dfn.lineno for name, v, node in _appends(fn))
+                                appended_before = any(name == arr and comes_before(fn.node, node, dfn) for name, v, node in _appends(fn))
                                 okk = (last or byvar) and appended_before
                 else:
                     okk = isinstance(tagn, ast.Name) and tagn.id == tagvar and isinstance(argn, ast.Name) and argn.id == argvar
